@@ -55,7 +55,6 @@ func bubble(t *testing.T, f func()) {
 	}
 }
 
-
 // bubbleFail carries a verdict out of a synctest bubble: rapid's Fatalf must run on rapid's own
 // goroutine, outside the bubble (inside it, shrinking does not reproduce reliably).
 type bubbleFail string
@@ -258,7 +257,7 @@ func c30Case(rt *rapid.T, rec *evid.Rec, fatalf func(string, ...any)) {
 	var fetchDelay time.Duration
 	splitter := &segfetcher.MultiSegmentSplitter{LocalIA: src.IA, Core: src.Core, Inspector: c30Inspector{topo}}
 	p := &segfetcher.Pather{IA: src.IA, MTU: src.MTU, NextHopper: c30NH{}, RevCache: rc,
-		Fetcher: &segfetcher.Fetcher{Resolver: c30SlowResolver{segfetcher.NewResolver(db, rc, c30Local{}), &fetchDelay}, Requester: c30NoReq{}, PathDB: db, QueryInterval: time.Minute, Metrics: c30Metrics},
+		Fetcher:  &segfetcher.Fetcher{Resolver: c30SlowResolver{segfetcher.NewResolver(db, rc, c30Local{}), &fetchDelay}, Requester: c30NoReq{}, PathDB: db, QueryInterval: time.Minute, Metrics: c30Metrics},
 		Splitter: splitter}
 	revs := map[snet.PathInterface]c30Rev{}
 	active := func(i snet.PathInterface) bool {
